@@ -276,6 +276,14 @@ def run_check(prop, mod, tier, seed):
         else:
             failing.append((i, v))
 
+    if getattr(mod, "HANG_IS_VIOLATION", None):
+        for i, (o, v) in enumerate(results):
+            if isinstance(o, dict) and "hangs" in str(o.get("adapter_error", "")):
+                m = model_obs[i]
+                finishes = (m is None and mod.model_case(cases[i]) is None) or (isinstance(m, dict) and (m.get("outcome") or ["?"])[0] not in ("fuel", "livelock"))
+                if finishes:
+                    failing.append((i, "%s (model: %s)" % (mod.HANG_IS_VIOLATION, (m or {}).get("outcome") if isinstance(m, dict) else "n/a")))
+
     def shrink(case, pred):
         if not hasattr(mod, "shrink"):
             return case
@@ -295,12 +303,19 @@ def run_check(prop, mod, tier, seed):
     if failing:
         i, v = failing[0]
         def still_fails(c):
-            o = impl(c); return mod.monitor(c, o) is not None
-        small = shrink(cases[i], still_fails)
-        o = impl(small)
+            try:
+                o = impl(c)
+            except CaseTimeout:
+                return "hangs" in v
+            return mod.monitor(c, o) is not None
+        small = shrink(cases[i], still_fails) if "hangs" not in v else cases[i]
+        try:
+            o = impl(small)
+        except CaseTimeout:
+            o = {"adapter_error": "the implementation hangs on this case"}
         path = write_replay(prop, "violation", {"property": prop, "kind": "property violated on the implementation",
                                                  "case": strip_cc(small), "original_case": strip_cc(cases[i]),
-                                                 "impl_observation": slim(mod, o), "verdict": mod.monitor(small, o) or v,
+                                                 "impl_observation": slim(mod, o), "verdict": (mod.monitor(small, o) if "adapter_error" not in o else None) or v,
                                                  "model_observation": model_obs[i], "seed": seed,
                                                  "other_failing_cases": len(failing) - 1})
         lines.append("VIOLATION property=%s replay=%s" % (prop, path)); violations += len(failing)
